@@ -558,8 +558,6 @@ def boundary_variants(rng, cases, count, max_len=65537):
             L = rng.choice(lengths)
             i = rng.randrange(len(cs)) if cs else 0
             ch = cs[i] if cs else 97
-            if 48 <= ch <= 57 and L > 5000:
-                L = 4096                      # very long digit runs cost the model minutes (unbounded Z arithmetic)
             if ch in (123, 125, 42) and L > 300:
                 ch = 97                       # thousands of braces or stars are a cost question, not a boundary question
             new = cs[:i] + [ch] * (L - 1) + cs[i:]
@@ -568,7 +566,7 @@ def boundary_variants(rng, cases, count, max_len=65537):
             # the whole argument brought to a boundary length by repeating its last character
             L = rng.choice(lengths[:11])
             ch = cs[-1] if cs else 97
-            if (48 <= ch <= 57) or ch in (123, 125, 42, 10):
+            if ch in (123, 125, 42, 10):
                 ch = 97
             new = cs + [ch] * max(0, L - len(cs))
             kind = "total-%d" % L
